@@ -160,6 +160,8 @@ def make_run(W, shape, known_active=None):
         liar = c == "liar"
         twin = c == "twin"
         callable_ = c == "callable"
+        if c == "derived":
+            return make_run_derived(W, T)
         if callable_:
             c = n            # a fresh class below object that defines __call__ (and nothing else of interest)
         if liar:
@@ -259,6 +261,38 @@ def make_run(W, shape, known_active=None):
         return run
 
 
+def make_run_derived(W, T):
+    """a class really derived from K1 (single base) that the harness classes see as class 2 (a virtual / structural subclass of whatever class 2
+    is below, beyond what it inherits): the base is dispatched first, then the derived class -- which matches T exactly when class 2 does"""
+    from ovld import Ovld, subclasscheck
+
+    def run(ctx):
+        K1, K2 = W.K[1], W.K[2]
+        ns_t = {"__module__": K1.__module__, "_world": K2.__dict__.get("_world", getattr(K2, "_world", None)), "_idx": 2}
+        Sub = type(K1)("Sub", (K1,), ns_t)
+        Leaf = type(K1)("Leaf", (Sub,), dict(ns_t))
+        hs, LOG, ns = _MS.instantiate(W)
+        hs[0].__annotations__ = {"x": build13(T, W)}
+        ov = Ovld()
+        ov.register(hs[0], priority=0)
+        ov.register(hs[1], priority=-1)
+        try:
+            outs = [outcome_of(lambda v=v: ov.dispatch(v), LOG)[0] for v in (W.inst[1], Sub(), Leaf(), W.inst[1])]
+            got = bool(subclasscheck(Sub, build13(T, W)))
+        except Exception as e:  # noqa: BLE001
+            return Verdict(False, (), dict(type=tstr(T), raised=f"{type(e).__name__}: {e}"[:160]), ["raised"], nontrivial=True)
+        m1, m2 = member13(T, 1, W), member13(T, 2, W)
+        ok = z3.And(m1 == z3.BoolVal(outs[0] == ("ran", 0)), m2 == z3.BoolVal(outs[1] == ("ran", 0)), m2 == z3.BoolVal(outs[2] == ("ran", 0)),
+                    m1 == z3.BoolVal(outs[3] == ("ran", 0)), m2 == z3.BoolVal(got),
+                    z3.BoolVal(all(o in (("ran", 0), ("ran", 1)) for o in outs)))
+        post = z3.Implies(W.rel(2, 1), ok)
+        info = dict(type=tstr(T), value_classes=["K1", "a class derived from K1 that the types see as class 2", "a class derived from that one", "K1"],
+                    dispatch=[list(o) for o in outs], subclasscheck=got)
+        return Verdict(post, (), info, ["derived"], nontrivial=outs[1] == ("ran", 0))
+
+    return run
+
+
 def universe(n, depth):
     K = [("K", i) for i in range(n)]
     pairs = list(itertools.combinations(K, 2))
@@ -291,6 +325,9 @@ def gen_shapes(tier, seed):
     K_ = [("K", i) for i in range(n)]
     shapes += [dict(kind="member", n=n, t=t, c="callable") for t in (("HM", "__call__"), ("I", ("HM", "__call__"), ("obj",)), ("U", ("HM", "__call__"), K_[0]),
                                                                        ("I", ("HM", "__call__"), ("SS", ("obj",))), ("HM", "hm"))]
+    def plain(t):
+        return t[0] in ("K", "obj") or (t[0] in ("U", "I") and all(plain(x) for x in t[1:]))
+    shapes += [dict(kind="member", n=n, t=t, c="derived") for t in universe(n, depth) if plain(t)]
     shapes += [dict(kind="pair", n=n, s=s, t=t) for s in g for t in g]
     K = [("K", i) for i in range(n)]
     twos = [(("Def", 0), ("Def", 1)), (("Def", 1), ("DefSub", 0)), (("Ex", K[0]), ("Ex", K[1])), (("SS", K[0]), ("SS", K[1])),
@@ -300,6 +337,8 @@ def gen_shapes(tier, seed):
 
 
 def explore_shape(shape, tier="quick", seed=0, budget_s=60, validate=0):
+    if shape.get("c") == "derived":
+        validate = 0      # (plain real classes cannot be virtual subclasses of one another: this family exists on the symbolic classes only)
     return runner.explore_symbolic(make_world, make_run, shape, seed=seed,
                                    deadline=time.time() + budget_s, validate=validate)
 
